@@ -450,6 +450,11 @@ class SymInt:
     def _cmp(self, o: Any, f: Callable[[Any, Any], Any]) -> Any:
         ot = _it(o)
         if ot is None:
+            if isinstance(o, float) and o == o and o not in (float('inf'), float('-inf')):
+                # exact: an integer against the rational value of the float
+                if o.is_integer():
+                    return SymBool(f(self.t, z3.IntVal(int(o))))
+                return SymBool(f(z3.ToReal(self.t), z3.Q(*o.as_integer_ratio())))
             return NotImplemented
         return SymBool(f(self.t, ot))
 
